@@ -169,6 +169,7 @@ def key_from_seed(label):
 
 
 _MINED = {}
+_MINED_BY_PK = {}
 
 
 def mined_key(prefix_hex, salt=""):
@@ -181,6 +182,7 @@ def mined_key(prefix_hex, salt=""):
         k = key_from_seed("mine-%s-%s-%d" % (prefix_hex, salt, i))
         if k.pk.startswith(prefix_hex):
             _MINED[ck] = k
+            _MINED_BY_PK[k.pk] = k
             return k
         i += 1
 
